@@ -76,7 +76,8 @@ def regen(cfgs):
 FP_FILES = ["src/%s" % f for f in ("parse.rs", "number.rs", "lemire.rs", "bellerophon.rs", "slow.rs", "rounding.rs", "mask.rs",
                                     "extended_float.rs", "num.rs", "bigint.rs", "stackvec.rs", "heapvec.rs", "table.rs",
                                     "table_lemire.rs", "table_small.rs", "table_bellerophon.rs", "libm.rs", "lib.rs", "fpu.rs")] + \
-           ["examples/simple.rs", "fuzz/fuzz_targets/parse.rs", "tests/integration_tests.rs", "etc/correctness/test-parse-golang/main.rs", "Cargo.toml"]
+           ["examples/simple.rs", "fuzz/fuzz_targets/parse.rs", "tests/integration_tests.rs", "etc/correctness/test-parse-golang/main.rs",
+            "etc/correctness/test-parse-random/_common.rs", "etc/correctness/test-parse-unittests/main.rs", "Cargo.toml"]
 
 def _strip_rust(text):
     """drop comments and all whitespace (a re-formatting or a comment edit is not a code change)"""
